@@ -8,7 +8,7 @@ import warnings
 import numpy as np
 
 from . import probes, interp
-from .common import digest
+from .common import digest, scribble
 from .replay_poplayout import build_leaf, draw_values, Reference
 
 chi = probes.chi
@@ -55,7 +55,8 @@ def replay_case(arg):
                 else:
                     n_free = pop.n_parameters()
                     pop.set_parameter_names(['N%d' % (k + 1) for k in range(n_free)] if a else None)
-                # after EVERY call: the model's own counts and names agree
+                # after EVERY call: the model's own counts and names agree (and accessors hand out copies)
+                scribble(pop)
                 n = pop.n_parameters()
                 nm = pop.get_parameter_names()
                 nb, ntop = pop.n_hierarchical_parameters(nids)
